@@ -27,7 +27,7 @@ func (flavor) Impl(ops []lc.Op, obs []lc.StepObs) string {
 	return strings.Join(parts, " ")
 }
 
-var reListening = regexp.MustCompile(`http app module: start: listening on tcp/(\S+?): `)
+var reListening = regexp.MustCompile(`http app module: start: listening on (?:tcp/)?(\S+?): `)
 
 // Oracle evaluates the property on the implementation's own observations: the harness keeps
 // the last accepted configuration (spec state) and demands after every operation that the
